@@ -64,7 +64,7 @@ func init() {
 			w.start(1)
 			w.start(0)
 			est := false
-			for i := 0; i < 5000 && !est; i++ {
+			for i := 0; i < 30000 && !est; i++ {
 				time.Sleep(time.Millisecond)
 				w.mu.Lock()
 				est = w.ep[0].connRet && w.ep[1].connRet && w.ep[0].connErr == nil && w.ep[1].connErr == nil
@@ -224,7 +224,7 @@ func init() {
 			w.start(1)
 			w.start(0)
 			est := false
-			for i := 0; i < 5000 && !est; i++ {
+			for i := 0; i < 30000 && !est; i++ {
 				time.Sleep(time.Millisecond)
 				w.mu.Lock()
 				est = w.ep[0].connRet && w.ep[1].connRet && w.ep[0].connErr == nil && w.ep[1].connErr == nil
@@ -359,7 +359,7 @@ func init() {
 			w.start(1)
 			w.start(0)
 			est := false
-			for i := 0; i < 5000 && !est; i++ {
+			for i := 0; i < 30000 && !est; i++ {
 				time.Sleep(time.Millisecond)
 				w.mu.Lock()
 				est = w.ep[0].connRet && w.ep[1].connRet && w.ep[0].connErr == nil && w.ep[1].connErr == nil
